@@ -325,6 +325,7 @@ func runRound(rp roundPlan) {
 	cronLoggerPhase(rp)
 	cronBackendPhase(rp)
 	parserCrossPhase(rp)
+	cronNamesPhase(rp)
 	for g := 0; g < rp.G; g++ {
 		per := map[int][2]int{} // k -> (conclusive, with >= 16 goroutines active)
 		for _, e := range results[g] {
@@ -389,6 +390,7 @@ func TestCheck(t *testing.T) {
 	rec = mon.Open("C08")
 	defer rec.Close()
 	nRounds := mon.Pick(12, 624)
+	plannedRounds = nRounds
 	rec.Note("rule", "A case is a round (GOMAXPROCS from {2,4,16} by round index, 16-64 goroutines, 3 pipelines per goroutine, 2 loops); an evaluation is one concurrent run of one pipeline whose result was compared with the result of the same pipeline run alone - before the concurrent phase, or (first-use pipelines always, the other stateless kinds by a seeded coin) after it, so that their inputs are new to every package-level table when the concurrent phase meets them. "+
 		"tz = first-use pipelines of the cron clause: every (round, loop) has a window of 10 specs with a TZ=/CRON_TZ= prefix whose zone name no goroutine of the process has used before (fixed list of 155 IANA names incl. Etc/GMT+-N walked with a stride, then the same files as posix/<name>, posix//<name> ...; every sixth a non-existent name), parsed by ParseStandard, a Parser with a seeded option set, cron.New().AddFunc or cron.New(WithSeconds()).AddFunc; the first pipeline of goroutines 6-13 parses 6 entries of the window right after the start barrier, so each entry meets several goroutines at once; compared: error text, or the schedule incl. the resolved Location name and the first 3 Next answers. "+
 		"Pipelines (seeded): enc = fresh enc/v1 Encrypt->Decrypt per run with own message (lengths 0-1200 around the 512-byte header read step, k*64KiB-17..+17 for k=1..3, random <= 200 KiB), own key-encryption key, the 7 key-wrap algorithm names, 3 cipher options, key names of 1-300 bytes, chunked/whole/streamed readers, slow consumers, wrap/unwrap callbacks that Gosched or sleep, and 14 deliberately invalid document shapes (wrong key, failing unwrap, replaced MAC/manifest/scheme line, cuts inside the header, flipped/truncated segments) compared by decrypt error text, stream error text and the plaintext delivered; "+
@@ -398,6 +400,7 @@ func TestCheck(t *testing.T) {
 		"Then a cron-logger phase: 4-8 independent cron.PrintfLogger/VerbosePrintfLogger instances over sinks of their own are handed the same 3-5 caller-owned keysAndValues slices (time.Time in several zones, strings, ints, durations, errors; with and without spare capacity) in the spread form of Info and Error - solo on private copies (reference lines), sequentially (A logs, slice element-wise identical to its snapshot, B's lines as solo) and from goroutines all at once, 3 repetitions (lines as solo, slices intact afterwards, no race report: the harness only reads them). "+
 		"Then cron loggers over Printf back-ends that keep what they are given: 6-9 independent PrintfLogger/VerbosePrintfLogger instances each log 3-6 Info+Error messages of their own into an immediate, a retaining (keeps format and the args slice as given, formats at the end) or an asynchronous back-end (queues them to a goroutine that formats later) - alone (reference lines), sequentially (A logs into a keeping back-end, B logs, A's records are formatted: as alone) and all at once from goroutines (every back-end's lines as alone; no race report). "+
 		"Then a separate-parsers phase: ParseStandard and five Parsers (seconds-first, SecondOptional, Minute|Hour, Descriptor-only, DowOptional) parse the same 8 seeded specs (2/4/5/6 numeric fields valid in every position, TZ=/CRON_TZ= prefixes, descriptors and @every); every text has a run pattern of blanks and tabs between its fields that no parse of the process has seen before, so the expectation for (parser, spec) is the parser's solo result on an equivalent fresh text (accepted/refused, bit sets, Location, Next at 3 instants); judged: B parsing a text right after A parsed the same text (all ordered pairs over the rounds), a parse after the caller changed Location/Minute/Hour of the schedule it got back, schedules retained from descriptor parses under 6 TZ prefixes re-queried after sequential and after 24-goroutine concurrent parses. "+
+		"Then a names phase: month and day-of-week names are case-insensitive; the 57 spellings with a lower-case first letter (jAn, jaN, jAN ...) are reserved for it and rationed over the rounds of a child (up to 6 per round), each put into a 5-field spec as a single name, a range, a list or a range with a step next to other spellings; 12 goroutines (ParseStandard, four Parsers, cron.New().AddFunc) are released from a spinning barrier before every spec and parse it at the same moment; expectation = the same parser's result for the numeric form of the spec, parsed beforehand. The cron, tz and separate-parsers specs draw month/day names in random spellings with an upper-case first letter. "+
 		"distinct = distinct pipeline descriptions; non-trivial = at least one of its concurrent runs started while >= 16 goroutines of the round were active. Both builds (-race 'main', 'plain') run the same plan; counters prefixed main./plain. split them.")
 	rec.Note("require", []string{"main.pipelines", "plain.pipelines", "gomaxprocs.2.rounds", "gomaxprocs.4.rounds", "gomaxprocs.16.rounds",
 		"enc.same_as_alone.real_work", "dec.same_as_alone.real_work", "sym.same_as_alone.real_work", "asym.same_as_alone.real_work", "keys.same_as_alone.real_work",
@@ -409,6 +412,7 @@ func TestCheck(t *testing.T) {
 		"pipelines.reference_run_after_the_concurrent_phase", "pool.fresh_size_cycles",
 		"main.cronlog.shared_args.sequential_checks", "plain.cronlog.shared_args.sequential_checks", "main.cronlog.shared_args.concurrent_outputs_compared", "plain.cronlog.shared_args.concurrent_outputs_compared", "cronlog.shared_args.intact_checks", "main.cronlog.backends.sequential_checks", "plain.cronlog.backends.sequential_checks", "main.cronlog.backends.concurrent_checks", "plain.cronlog.backends.concurrent_checks",
 		"cronlog.backends.concurrent_checks.retaining", "cronlog.backends.concurrent_checks.asynchronous", "cronlog.backends.concurrent_checks.immediate",
+		"main.cronnames.fresh_spellings_first_met_by_12_goroutines_at_once", "plain.cronnames.fresh_spellings_first_met_by_12_goroutines_at_once", "cronnames.named_vs_numeric_checks", "cronparsers.specs_with_names",
 		"cronparsers.solo_accepted", "cronparsers.solo_refused", "main.cronparsers.cross_order_checks", "plain.cronparsers.cross_order_checks", "main.cronparsers.caller_mutation_checks", "plain.cronparsers.caller_mutation_checks",
 		"main.cronparsers.sequential_descriptor_requeries", "plain.cronparsers.sequential_descriptor_requeries", "main.cronparsers.concurrent_descriptor_requeries", "plain.cronparsers.concurrent_descriptor_requeries",
 		"enc.invalid_documents_same_error", "enc.unwrap_callback_pauses", "enc.streamed_decrypts", "enc.len.around_512_header_step", "enc.len.around_64KiB_boundary",
